@@ -142,6 +142,19 @@ reg(Spec("C08", "c08_stack.cpp", needs=("shim", "optable"),
                       "pusha/popa restore the 32-bit view; the whole accumulator is required back only when it fits 32 bits",
                       "operands the source itself rejects (pc, undefined ArArpSttMod codes) and whole accumulators through a 16-bit push are outside 'pushable'"]))
 
+reg(Spec("C09", "c09_loops.cpp", needs=("shim", "optable"),
+         cases={"quick": 4000, "thorough": 80000},
+         rule="loop_unroll: programs generated as a small AST (straight-line one/two-word instructions, rep, bkrep nested up to four "
+              "levels, counts from an immediate / r5 / r6, all counts 0..40 + {255,256,0x7FFF,0xFFFF} + uniform, dynamic size <= ~4096 "
+              "instructions, plus single loops with large counts and a tiny body); the looped program and the harness-unrolled one run "
+              "to their end: same registers, same memory, loop state clear. loop_counter: a body storing lc / repc per iteration leaves a "
+              "sequence that steps down by one per iteration and ends at 0, with exactly N+1 iterations. frame_roundtrip: bkrepsto ; "
+              "bkreprst ([arrn] and [sp]) with 0..4 active frames holding 18-bit addresses is the identity. Non-trivial = the loop "
+              "executed more instructions than the program has words / N >= 1 / >= 1 active frame.",
+         assumptions=["a nested loop never ends on the same instruction as its enclosing loop and rep is never the last instruction of a block "
+                      "(programs real code cannot rely on either)", "interrupts off; bodies contain no control flow and do not touch lc/repc/sp",
+                      "the iteration in which the counter is observed may see the value before or after that iteration's decrement"]))
+
 # Properties not (yet) claimed. Kept current by hand; every id in properties.jsonl is either in SPECS or here.
 _PENDING = "check not built yet in this round; planned with property-based testing per DESIGN.md"
 NOT_APPLICABLE = [{"property_id": "C%02d" % i, "reason": _PENDING} for i in range(1, 21) if "C%02d" % i not in SPECS]
